@@ -313,3 +313,26 @@ func init() {
 			Expect: []string{"C19.R2@(*internal/preflight.APIExistence).Check"}},
 	)
 }
+
+// Round seven (corpus N*): the include counter tested by a plain map lookup (a missing key reads as
+// zero) instead of the comma-ok form.
+func init() {
+	const sprig = "internal/transform/transformfiles_funcs.go"
+	const guard = "\t\tif v, ok := includedNames[name]; ok {\n\t\t\tif v > recursionDepth {\n\t\t\t\treturn \"\", fmt.Errorf(\"including template with name %s: %w\", name, ErrExceededIncludeRecursion)\n\t\t\t}\n\t\t\tincludedNames[name]++\n\t\t} else {\n\t\t\tincludedNames[name] = 1\n\t\t}\n"
+	const reentry = "C19.R5@internal/transform.SprigFuncs$1#template-reentry"
+	addMutants(
+		Mutant{Prop: "C19", Name: "r5-benign-include-counter-plain-lookup", File: sprig, Benign: true,
+			Old: guard,
+			New: "\t\tif includedNames[name] > recursionDepth {\n\t\t\treturn \"\", fmt.Errorf(\"including template with name %s: %w\", name, ErrExceededIncludeRecursion)\n\t\t}\n\t\tincludedNames[name]++\n"},
+		Mutant{Prop: "C19", Name: "r5-include-counter-plain-lookup-test-inverted", File: sprig,
+			Why: "`<` instead of `>`: includes are rejected while the counter is below the limit and allowed without bound above it",
+			Old: guard,
+			New: "\t\tif includedNames[name] < recursionDepth {\n\t\t\treturn \"\", fmt.Errorf(\"including template with name %s: %w\", name, ErrExceededIncludeRecursion)\n\t\t}\n\t\tincludedNames[name]++\n",
+			Expect: []string{reentry}},
+		Mutant{Prop: "C19", Name: "r5-include-counter-plain-lookup-never-incremented", File: sprig,
+			Why: "the counter is tested but never counted up: the bound is never reached",
+			Old: guard,
+			New: "\t\tif includedNames[name] > recursionDepth {\n\t\t\treturn \"\", fmt.Errorf(\"including template with name %s: %w\", name, ErrExceededIncludeRecursion)\n\t\t}\n",
+			Expect: []string{reentry}},
+	)
+}
